@@ -2,6 +2,7 @@
   C11 — eager loading attaches to each record exactly its own rows: the key-string core.
 -/
 import GormModel.Model.Identity
+import GormModel.Gen.PreloadFacts
 import GormModel.Lemmas.Identity
 namespace Gorm
 
@@ -183,19 +184,19 @@ example : preloadDirect
 
 /-! ## finding F6b: nested joins + Preload below them on a single-struct destination -/
 
-/-- FINDING F6b (counterexample, kernel-checked): destination `First(&order)`, `Joins("Parent")`,
-    `Joins("Parent.Parent")`, `Preload("Parent.Parent.Lines")`, and the order has no parent: the walk dereferences the
-    nil `Parent` pointer. -/
+/-- on a tree whose single-record branch does NOT test for nil (the pinned commit before the repair, finding F6b) a NULL
+    joined relation followed by a further joined hop panics -/
 theorem C11_entry_walk_counterexample :
-    entryWalk (.obj [("Parent".toList, .nilp)]) ["Parent".toList, "Parent".toList] = false := by
+    entryWalk false (.obj [("Parent".toList, .nilp)]) ["Parent".toList, "Parent".toList] = false := by
   decide
 
-/-- … outside the pattern (no joined relation that is followed by a further joined hop is NULL) the walk completes -/
-theorem C11_entry_walk_partial (v : JVal) (hops : List (List Char))
+/-- … outside the pattern (no joined relation that is followed by a further joined hop is NULL) the walk completes, on
+    either tree -/
+theorem C11_entry_walk_partial (ns : Bool) (v : JVal) (hops : List (List Char))
     (h : ∀ k, k < hops.length → ∀ w, jreach v (hops.take k) = some w → w.isNil = false) :
-    entryWalk v hops = true := by
+    entryWalk ns v hops = true := by
   induction hops generalizing v with
-  | nil => rfl
+  | nil => cases v <;> rfl
   | cons f rest ih =>
     cases v with
     | nilp =>
@@ -213,8 +214,38 @@ theorem C11_entry_walk_partial (v : JVal) (hops : List (List Char))
         exact hw
 
 /-- in particular one joined hop never fails (the destination itself is not nil) -/
-theorem C11_entry_walk_one_hop (fs : List (List Char × JVal)) (f : List Char) : entryWalk (.obj fs) [f] = true := by
+theorem C11_entry_walk_one_hop (ns : Bool) (fs : List (List Char × JVal)) (f : List Char) :
+    entryWalk ns (.obj fs) [f] = true := by
   simp only [entryWalk]
-  cases jfield fs f <;> simp
+  cases h : jfield fs f with
+  | none => rfl
+  | some v => cases v <;> rfl
+
+/-- FULL statement on a tree with the nil test: the walk completes for EVERY loaded value and EVERY join path -/
+theorem C11_entry_walk_total (v : JVal) (hops : List (List Char)) : entryWalk true v hops = true := by
+  induction hops generalizing v with
+  | nil => cases v <;> rfl
+  | cons f rest ih =>
+    cases v with
+    | nilp => rfl
+    | obj fs =>
+      simp only [entryWalk]
+      cases jfield fs f with
+      | none => rfl
+      | some v' => exact ih v'
+
+/-- the tree as it is now (regenerated fact): either the branch tests for nil and the walk never panics, or it does
+    not and the listed witness panics -/
+theorem C11_entry_walk_current_tree :
+    Gen.preloadSingleBranchFound = true ∧
+    ((Gen.preloadSingleNilCheck = true ∧ ∀ v hops, entryWalk Gen.preloadSingleNilCheck v hops = true) ∨
+     (Gen.preloadSingleNilCheck = false ∧
+        entryWalk Gen.preloadSingleNilCheck (.obj [("Parent".toList, .nilp)]) ["Parent".toList, "Parent".toList] = false)) := by
+  refine ⟨by decide, ?_⟩
+  by_cases h : Gen.preloadSingleNilCheck = true
+  · left; refine ⟨h, ?_⟩; rw [h]; exact C11_entry_walk_total
+  · right
+    have h' : Gen.preloadSingleNilCheck = false := by simpa using h
+    refine ⟨h', ?_⟩; rw [h']; decide
 
 end Gorm
